@@ -1,7 +1,7 @@
 """C07 - multiple() draws a uniformly random k-subset of the collection."""
 from . import common as C, gen_int as G, oracles as O
 
-LEAN_MODULE = "Urandom.Props.C07"
+LEAN_MODULE = ["Urandom.Props.C07", "Urandom.Props.C07T"]
 RULE = ("requests: multiple on n in 0..30 items, k in 0..35 slots (k<n, k=n, k>n, k=0), the collection behind iterators with exact, inexact, lower-bound and missing size hints (slice, Vec, Filter, Chain, custom), scripted words realising chosen replacement indices; "
         "non-trivial = n > k > 0 (at least one draw); distinct = distinct request line")
 ASSUMPTIONS = []
